@@ -543,6 +543,12 @@ func NewKeyFromString(key string) (*ExtendedKey, error) {
 			return nil, ErrUnusableSeed
 		}
 	} else {
+		// The x coordinate must be a field element: btcec.ParsePubKey does
+		// not check this for compressed keys and would reduce it silently.
+		if new(big.Int).SetBytes(keyData[1:]).Cmp(btcec.S256().P) >= 0 {
+			return nil, errors.New("public key x coordinate is out of range")
+		}
+
 		// Ensure the public key parses correctly and is actually on the
 		// secp256k1 curve.
 		_, err := btcec.ParsePubKey(keyData, btcec.S256())
